@@ -828,6 +828,9 @@ enum COp {
     Exp(i64),
     Nbf(f64),
     Iat(i64),
+    /// any of the three time setters (0 exp, 1 nbf, 2 iat) with a whole or fractional timestamp,
+    /// incl. NaN, infinities, negative zero and integral floats
+    Time(u8, Result<i64, f64>),
     CwtId(Vec<u8>),
     Claim(i64, Value),
     TextClaim(String, Value),
@@ -846,6 +849,8 @@ impl Spec for ClaimsSpec {
             COp::Exp(0),
             COp::Nbf(1.5),
             COp::Iat(-1),
+            COp::Time(0, Err(f64::NAN)),
+            COp::Time(2, Err(2.0)),
             COp::CwtId(vec![]),
             COp::TextClaim("t".into(), Value::Null),
         ];
@@ -861,6 +866,22 @@ impl Spec for ClaimsSpec {
         if g.ratio(1, 3) {
             let p = Self::palette();
             return p[g.below(p.len())].clone();
+        }
+        if g.ratio(1, 6) {
+            let which = g.below(3) as u8;
+            let t = if g.bool() {
+                Ok(g.i64())
+            } else {
+                Err(match g.below(6) {
+                    0 => f64::NAN,
+                    1 => f64::INFINITY,
+                    2 => -0.0,
+                    3 => g.range_i64(-5, 5) as f64,
+                    4 => f64::from_bits(0x7ff0_0000_0000_0001),
+                    _ => crate::gen::gen_float(g, true),
+                })
+            };
+            return COp::Time(which, t);
         }
         match g.below(10) {
             0 => COp::Issuer(g.text()),
@@ -883,6 +904,17 @@ impl Spec for ClaimsSpec {
             COp::Exp(t) => b.expiration_time(Timestamp::WholeSeconds(t)),
             COp::Nbf(t) => b.not_before(Timestamp::FractionalSeconds(t)),
             COp::Iat(t) => b.issued_at(Timestamp::WholeSeconds(t)),
+            COp::Time(w, t) => {
+                let ts = match t {
+                    Ok(i) => Timestamp::WholeSeconds(i),
+                    Err(f) => Timestamp::FractionalSeconds(f),
+                };
+                match w {
+                    0 => b.expiration_time(ts),
+                    1 => b.not_before(ts),
+                    _ => b.issued_at(ts),
+                }
+            }
             COp::CwtId(v) => b.cwt_id(v),
             COp::Claim(n, v) => b.claim(iana::CwtClaimName::from_i64(n).unwrap(), v),
             COp::TextClaim(n, v) => b.text_claim(n, v),
@@ -899,6 +931,17 @@ impl Spec for ClaimsSpec {
                 COp::Exp(t) => c.expiration_time = Some(Timestamp::WholeSeconds(t)),
                 COp::Nbf(t) => c.not_before = Some(Timestamp::FractionalSeconds(t)),
                 COp::Iat(t) => c.issued_at = Some(Timestamp::WholeSeconds(t)),
+                COp::Time(w, t) => {
+                    let ts = Some(match t {
+                        Ok(i) => Timestamp::WholeSeconds(i),
+                        Err(f) => Timestamp::FractionalSeconds(f),
+                    });
+                    match w {
+                        0 => c.expiration_time = ts,
+                        1 => c.not_before = ts,
+                        _ => c.issued_at = ts,
+                    }
+                }
                 COp::CwtId(v) => c.cwt_id = Some(v),
                 COp::Claim(n, v) => {
                     // claims 1-7 belong to typed fields: refused
